@@ -5,4 +5,5 @@ EXTENDS H5Logical
 FShapes == {[dt |-> "i32", dims |-> <<4>>, chunk |-> <<2>>, max |-> <<-1>>, flt |-> ""]}
 FSoft == {}
 FResize == {<<7>>}
+AllPaths == Paths
 =============================================================================
